@@ -6,6 +6,7 @@ import (
 	"bytes"
 	"io"
 	"sync"
+	"time"
 
 	V "filippo.io/age/internal/zzverif"
 )
@@ -36,6 +37,11 @@ func useShared(r Recipient, id Identity, fileKey, P []byte) bool {
 		defer w.Close()
 		w.Write(P)
 		ok = ok && w.Close() == nil
+		// natively: let other goroutines run between the explicit Close and the
+		// deferred one (any interleaving is a legitimate schedule)
+		if !V.Symbolic() {
+			time.Sleep(20 * time.Microsecond)
+		}
 	}()
 	rd, err := Decrypt(bytes.NewReader(buf.Bytes()), id)
 	if err != nil {
@@ -43,6 +49,42 @@ func useShared(r Recipient, id Identity, fileKey, P []byte) bool {
 	}
 	out, err := io.ReadAll(rd)
 	return ok && err == nil && bytes.Equal(out, P)
+}
+
+// interleaved runs two Encrypt operations A and B on the shared recipient in
+// one fixed interleaving of their calls (A finishes and closes, B starts, A's
+// deferred second Close runs, B goes on): B's file must still decrypt to B's
+// plaintext - every operation yields the result it would yield alone.
+func interleaved(r Recipient, id Identity, P []byte) bool {
+	var bufA, bufB bytes.Buffer
+	wA, err := Encrypt(&bufA, r)
+	if err != nil {
+		return false
+	}
+	wA.Write(P)
+	if wA.Close() != nil {
+		return false
+	}
+	wB, err := Encrypt(&bufB, r)
+	if err != nil {
+		return false
+	}
+	if _, err := wB.Write([]byte("b1")); err != nil {
+		return false
+	}
+	wA.Close() // the deferred Close of operation A: an error, and no effect on B
+	if _, err := wB.Write(P); err != nil {
+		return false
+	}
+	if wB.Close() != nil {
+		return false
+	}
+	rd, err := Decrypt(bytes.NewReader(bufB.Bytes()), id)
+	if err != nil {
+		return false
+	}
+	out, err := io.ReadAll(rd)
+	return err == nil && bytes.Equal(out, append([]byte("b1"), P...))
 }
 
 // Harness_C20_shared_native: one X25519 or passphrase recipient / identity pair
@@ -86,10 +128,11 @@ func Harness_C20_shared_native() {
 		V.Assert(len(V.SharedWrites()) == 0, sharedWriteMsg)
 		return
 	}
+	V.Assert(interleaved(r, id, P), sharedWriteMsg)
 	stress(func() bool { return useShared(r, id, fileKey, P) })
 }
 
-// stress runs op from 8 goroutines, 20 times each, the first uses of the
+// stress runs op from 8 goroutines, 100 times each, the first uses of the
 // shared values being concurrent.
 func stress(op func() bool) {
 	var wg sync.WaitGroup
@@ -101,7 +144,7 @@ func stress(op func() bool) {
 		go func() {
 			defer wg.Done()
 			<-start
-			for k := 0; k < 20; k++ {
+			for k := 0; k < 100; k++ {
 				if !op() {
 					mu.Lock()
 					bad++
